@@ -54,6 +54,9 @@ CHECKS = {
  'C19': dict(cat=MC, technique='TLA+ model of hot-spot region growing as coded vs connected components (spec/mesh/Hotspot.tla), TLC exhaustive over incidence structures and fields; TLA+ configuration lattice of block meshes x numberings x row orders with the boundary-node set (MeshOps.tla); every state evaluated through hotspot / gradient / gradient_3D / surface_3D / meshmapper',
    text='Hot-spot detection is a graph algorithm: TLC proves region growing = connected components numbered by descending peak on every small incidence structure incl. ties and entries exactly on the threshold, and each is replayed with arbitrary ids and row orders. For the numeric operators the specification enumerates the configuration space (numberings with gaps / reversed / scattered, element numberings, row orders, hex / tet / mixed) for which the expectation (constant gradient at every node, boundary node set, linear values) is exact.',
    note='gradient / surface / mapping expectations are exact only for linear fields on the block catalogue; the model contributes configurations and the boundary set, not floating-point reasoning', ref='5 C19'),
+ 'C10': dict(cat=MC, technique='TLA+ metamorphic transition system over assessment configurations (spec/assessment/Assessment.tla): actions carry the relation (unchanged / not larger); TLC enumerates the walks; the real pipeline is executed at every step of core and sampled walks and each recorded step is decided by the TLC trace specification Trace_Assessment.tla (micro-log units, tolerance as a spec constant)',
+   text='C10 relates pairs of runs of an expensive numeric pipeline; the specification makes the transformations (add/drop/reorder points, per-point gradient, six kinds of non-reversal refinements, scale, roughness, failure probability) actions with their relation, TLC generates compositions no single-step test reaches, and the accept/reject decision for every recorded step is taken by TLC. Weaker than the exhaustive checks: walks are sampled (all core walks + a seeded stratified sample).',
+   note='sampled walks; absolute lifetimes are not judged; open findings C10-PRAJ-batch and C10-PRAM-class-edge', ref='5 C10'),
 }
 PENDING = 'check not built yet in this round (planned, see DESIGN.md section 5)'
 NA = {
